@@ -191,7 +191,7 @@ def check_run(ctx, rec, history, baseline=None, region_only=False, expect_ok=Non
         kinds[o['k']] = kinds.get(o['k'], 0) + 1
     desc['op_kinds'] = kinds
     nontrivial = len(rec['ops']) >= 10 and kinds.get('Mkdir', 0) >= 1 and kinds.get('Unlink', 0) >= 1
-    ctx.count((history, label), nontrivial=nontrivial)
+    ctx.count((history, label, ctx.evaluations), nontrivial=nontrivial)
     if expect_ok is not None and res['ok'] != expect_ok:
         d = dict(desc, **{'class': 'c19-run-outcome-unexpected', 'traceback': res.get('traceback')})
         ctx.violation(f'{label}: run was expected to {"succeed" if expect_ok else "fail"} but '
